@@ -507,4 +507,47 @@ theorem sim_init (st : Store) (b : GethSpec.Base)
     · simp [objState, committed, AList.find?, GethSpec.stateOf, GethSpec.committedOf, hslot]
     · simp [committed, AList.find?, GethSpec.committedOf, hslot]
 
+/-! ### CreateAccount (where the interpreter may call it: no storage persisted under the address) -/
+
+/-- `CreateAccount` on an address under which the store holds no slots (what `evm.create` guarantees: no code, no nonce, hence —
+    on a chain that only writes storage of contracts — no storage) preserves the simulation: both sides keep the balance and start
+    from empty storage. With persisted slots under the address the two differ (go-ethereum's new object hides them, Nibiru's reads
+    them from the store); the interface-level generator stays away from that case and DESIGN.md §6 C03 records it. -/
+theorem sim_createAccount (s : S) (g : GethSpec.G) (h : Sim s g) (a : Nat) (hs : ∀ k, s.txStore.slot a k = 0) :
+    Sim (createAccount s a) (GethSpec.apply g (.createAccount a)).1 := by
+  obtain ⟨h1, h2, h3, h4, h5, h6, h7, h8⟩ := getObj_spec s h.cache a
+  have hr := h.objs a
+  simp only [GethSpec.apply]
+  unfold createAccount
+  rcases hg : getObj s a with ⟨s1, _ | prev⟩
+  · rw [hg] at h1 h2 h3 h4 h5 h6 h7 h8
+    simp only at h1 h2 h3 h4 h5 h6 h7 h8
+    rw [← h1] at hr
+    cases hx : GethSpec.obj? g a with
+    | some x => rw [hx] at hr; exact hr.elim
+    | none =>
+      simp only [Option.map, Option.getD]
+      have hs1 : Sim s1 g := ⟨h4, by rw [h3]; exact h.storeOK, fun b => by rw [h2 b]; exact Rel_congr s s1 g g h3 rfl b _ _ (h.objs b),
+        h5.trans h.refund, h6.trans h.logs, h7.trans h.alA, h8.trans h.alS⟩
+      refine sim_of_update s1 _ g _ hs1 a {} { balance := 0, fresh := true } rfl h4 rfl
+        (fun b => by rw [objOf_setObj, objOf_append]) (fun b => gObj_setObj g a b _) ?_ hs1.refund hs1.logs hs1.alA hs1.alS
+      refine ⟨rfl, rfl, rfl, rfl, fun k => ?_, fun k => ?_⟩
+      · simp [objState, committed, AList.find?, GethSpec.stateOf, GethSpec.committedOf, setObj, append, h3, hs k]
+      · simp [committed, AList.find?, GethSpec.committedOf, setObj, append, h3, hs k]
+  · rw [hg] at h1 h2 h3 h4 h5 h6 h7 h8
+    simp only at h1 h2 h3 h4 h5 h6 h7 h8
+    rw [← h1] at hr
+    cases hx : GethSpec.obj? g a with
+    | none => rw [hx] at hr; exact hr.elim
+    | some x =>
+      rw [hx] at hr
+      simp only [Option.map, Option.getD]
+      have hs1 : Sim s1 g := ⟨h4, by rw [h3]; exact h.storeOK, fun b => by rw [h2 b]; exact Rel_congr s s1 g g h3 rfl b _ _ (h.objs b),
+        h5.trans h.refund, h6.trans h.logs, h7.trans h.alA, h8.trans h.alS⟩
+      refine sim_of_update s1 _ g _ hs1 a { balance := prev.balance } { balance := x.balance, fresh := true } rfl h4 rfl
+        (fun b => by rw [objOf_setObj, objOf_append]) (fun b => gObj_setObj g a b _) ?_ hs1.refund hs1.logs hs1.alA hs1.alS
+      refine ⟨hr.1, rfl, rfl, rfl, fun k => ?_, fun k => ?_⟩
+      · simp [objState, committed, AList.find?, GethSpec.stateOf, GethSpec.committedOf, setObj, append, h3, hs k]
+      · simp [committed, AList.find?, GethSpec.committedOf, setObj, append, h3, hs k]
+
 end Nibiru.SDB
